@@ -179,13 +179,14 @@ def coq_cert(m):
                 b(m["self_issued"]), b(m["issuer_uid"]), b(m["subject_uid"]), eku, "; ".join(xs)))
 
 
-def coq_ekus(trust_config):
-    """DEFAULT_EKUS ++ the dotted OIDs of a trust_config text (what add_valid_ekus keeps: lines that parse as an OID)"""
+def coq_ekus(trust_config, defaults=True):
+    """DEFAULT_EKUS ++ the dotted OIDs of a trust_config text (what add_valid_ekus keeps: lines that parse as an OID);
+    defaults=False for CertificateTrustPolicy::passthrough(), which starts from an empty EKU set"""
     extra = []
     for l in (trust_config or "").splitlines():
         if re.fullmatch(r"\d+(\.\d+)+", l):
             extra.append([int(x) for x in l.split(".")])
-    return "(DEFAULT_EKUS ++ [" + "; ".join(coq_oid(o) for o in extra) + "])"
+    return ("(DEFAULT_EKUS ++ [" if defaults else "([] ++ [") + "; ".join(coq_oid(o) for o in extra) + "])"
 
 
 IMPORTS = ("From Coq Require Import List NArith ZArith Bool.\nFrom C2PA Require Import Generated.C06_facts Model.CertProfile Model.TrustPolicy.\n"
@@ -238,3 +239,38 @@ def model_profile(term, quiet_logged=False):
 
 def now():
     return int(time.time())
+
+
+def run_cases(prop, cases, jobs=16, timeout=3600):
+    """like common.run_harness, but always spread over `jobs` processes (a case costs ~1.5 s in the debug harness)"""
+    import subprocess
+    os.makedirs(common.CASES, exist_ok=True)
+    n = max(1, min(jobs, len(cases)))
+    shards = [cases[i::n] for i in range(n)]
+    procs = []
+    for k, shard in enumerate(shards):
+        path = os.path.join(common.CASES, f"{prop}_cert_in_{k}.jsonl")
+        with open(path, "w") as f:
+            for c in shard:
+                f.write(json.dumps(c) + "\n")
+        procs.append((shard, subprocess.Popen([common.HARNESS_BIN, prop.lower(), path], stdout=subprocess.PIPE,
+                                              stderr=subprocess.PIPE, text=True)))
+    out = {}
+    for shard, p in procs:
+        try:
+            so, se = p.communicate(timeout=timeout)
+        except subprocess.TimeoutExpired:
+            p.kill()
+            so, se = p.communicate()
+            se += "\nTIMEOUT"
+        for line in so.splitlines():
+            if line.strip():
+                try:
+                    r = json.loads(line)
+                    out[r["id"]] = r
+                except Exception:
+                    pass
+        for c in shard:
+            if c["id"] not in out:
+                out[c["id"]] = {"id": c["id"], "r": "crash", "msg": f"harness died rc={p.returncode}: {se[-300:]}"}
+    return out
